@@ -49,3 +49,19 @@ void h_softclip_degenerate(void)
    __CPROVER_assert(one == 0.5f && m == 0.25f, "null pointers: nothing is touched");
    CANARY("degenerate call");
 }
+
+/* channel independence: one interleaved call on C channels == C separate mono calls, each with its own memory
+   (both sides run the real function on the same symbolic samples; results compared bit for bit) */
+void h_softclip_independence(void)
+{
+   const int N = VERIF_N, C = VERIF_C; int i, c, k; float x[VERIF_NC], mem[VERIF_C], y[VERIF_C][VERIF_N], m1[VERIF_C];
+   for (i = 0; i < VERIF_NC; i++) { x[i] = nondet_float(); __CPROVER_assume(!isnan(x[i]) && !isinf(x[i])); }
+   for (c = 0; c < VERIF_C; c++) { mem[c] = nondet_float(); __CPROVER_assume(mem[c] >= -1.f && mem[c] <= 1.f); m1[c] = mem[c]; }
+   for (c = 0; c < VERIF_C; c++) for (i = 0; i < VERIF_N; i++) y[c][i] = x[i * VERIF_C + c];
+   opus_pcm_soft_clip(x, N, C, mem);
+   for (c = 0; c < VERIF_C; c++) opus_pcm_soft_clip(y[c], N, 1, &m1[c]);
+   k = nondet_int(); c = nondet_int(); __CPROVER_assume(0 <= k && k < VERIF_N && 0 <= c && c < VERIF_C);
+   __CPROVER_assert(BITS(x[k * VERIF_C + c]) == BITS(y[c][k]) || (x[k * VERIF_C + c] == y[c][k]), "interleaved processing equals channel-by-channel processing, sample for sample");
+   __CPROVER_assert(BITS(mem[c]) == BITS(m1[c]) || mem[c] == m1[c], "and leaves the same per-channel memory");
+   CANARY("after independence");
+}
